@@ -153,6 +153,7 @@ type LoadPlan struct {
 	Extra  []int  `json:"extra,omitempty"`  // bulk: keys the loader volunteers
 	Points int    `json:"points,omitempty"` // scheduling points inside the loader
 	Stall  bool   `json:"stall,omitempty"`  // park until the rest of the system is idle
+	Adv    int64  `json:"adv,omitempty"`    // the loader takes time: the clock moves by Adv while it runs (sequential engines)
 }
 
 type Op struct {
@@ -530,6 +531,10 @@ func (r *Runner) loaderBody(rec *loadRec) {
 		rec.Task, rec.OpIdx = -1, -1
 	}
 	r.Loads = append(r.Loads, rec)
+	if rec.Plan.Adv > 0 {
+		r.fault("loader-takes-time")
+		r.Advance(rec.Plan.Adv)
+	}
 	for i := 0; i < rec.Plan.Points; i++ {
 		simrt.Point(simrt.KCallback)
 	}
